@@ -237,7 +237,7 @@ pub fn run_store_and_http() -> (Vec<F>, u64, Vec<String>) {
     drop(_ctl);
     let Server { store, rt, .. } = server;
     rt.shutdown_timeout(Duration::from_secs(10)); // connection tasks hold store clones
-    if !common::close_store(store, Duration::from_secs(20)) {
+    if !common::close_store(store, Duration::from_secs(75)) {
         eprintln!("HARNESS ERROR: store did not close");
         std::process::exit(2);
     }
